@@ -106,3 +106,205 @@ theorem lastCp_of_endsFail (t : Trace α ε) : t.endsFail = true → t.sols ≠ 
 
 end Toplevel
 end Scryer
+
+/-! ## answer construction -/
+namespace Scryer
+namespace Toplevel
+
+theorem containsName_eq_false_iff (vl : VarList) (m : String) :
+    containsName vl m = false ↔ ∀ p ∈ vl, p.1 ≠ m := by
+  induction vl with
+  | nil => simp [containsName]
+  | cons p vl ih =>
+    obtain ⟨n, t⟩ := p
+    simp [containsName, ih]
+
+theorem length_le_sumLen {vl : VarList} {p : String × Term} (h : p ∈ vl) : p.1.length ≤ sumLen vl := by
+  induction vl with
+  | nil => cases h
+  | cons q vl ih =>
+    obtain ⟨n, t⟩ := q
+    cases h with
+    | head => simp [sumLen]
+    | tail _ h' => have := ih h'; simp [sumLen]; omega
+
+theorem longName_fresh (vl : VarList) : containsName vl (longName vl) = false := by
+  rw [containsName_eq_false_iff]
+  intro p hp heq
+  have h1 := length_le_sumLen hp
+  have h2 : (longName vl).length = sumLen vl + 1 := by simp [longName]
+  rw [heq] at h1
+  omega
+
+theorem makeNewVarName_fresh (fuel n : Nat) (vl : VarList) :
+    containsName vl (makeNewVarName fuel n vl).1 = false := by
+  induction fuel generalizing n with
+  | zero => simp [makeNewVarName, longName_fresh]
+  | succ f ih =>
+    simp only [makeNewVarName]
+    split
+    · exact ih _
+    · simp_all
+
+/-- a fabricated entry never carries the name of an entry of the original list. -/
+theorem extendVarList__fresh (vars : List String) (n : Nat) (vl : VarList) :
+    ∀ p ∈ extendVarList_ vars n vl, containsName vl p.1 = false := by
+  induction vars generalizing n with
+  | nil => simp [extendVarList_]
+  | cons v vs ih =>
+    simp only [extendVarList_]
+    split
+    · exact ih n
+    · intro p hp
+      cases hp with
+      | head => exact makeNewVarName_fresh _ _ _
+      | tail _ h => exact ih _ p h
+
+/-- a fabricated entry stands for a variable that has no name in the original list. -/
+theorem extendVarList__new (vars : List String) (n : Nat) (vl : VarList) :
+    ∀ p ∈ extendVarList_ vars n vl, ∃ v, p.2 = .var v ∧ containsVar vl v = false ∧ v ∈ vars := by
+  induction vars generalizing n with
+  | nil => simp [extendVarList_]
+  | cons v vs ih =>
+    simp only [extendVarList_]
+    split
+    · intro p hp
+      obtain ⟨w, h1, h2, h3⟩ := ih n p hp
+      exact ⟨w, h1, h2, List.mem_cons_of_mem _ h3⟩
+    · intro p hp
+      cases hp with
+      | head => exact ⟨v, rfl, by simp_all, List.mem_cons_self⟩
+      | tail _ h =>
+        obtain ⟨w, h1, h2, h3⟩ := ih _ p h
+        exact ⟨w, h1, h2, List.mem_cons_of_mem _ h3⟩
+
+theorem selectAll_fst_sub (ps : VarList) (v : String) : ∀ p ∈ (selectAll ps v).1, p ∈ ps ∧ p.2 = .var v := by
+  induction ps with
+  | nil => simp [selectAll]
+  | cons q ps ih =>
+    obtain ⟨n, t⟩ := q
+    intro p hp
+    simp only [selectAll] at hp
+    split at hp
+    · split at hp
+      · cases hp with
+        | head => simp_all
+        | tail _ h => exact ⟨List.mem_cons_of_mem _ (ih p h).1, (ih p h).2⟩
+      · exact ⟨List.mem_cons_of_mem _ (ih p hp).1, (ih p hp).2⟩
+    · exact ⟨List.mem_cons_of_mem _ (ih p hp).1, (ih p hp).2⟩
+
+theorem selectAll_snd_sub (ps : VarList) (v : String) : ∀ p ∈ (selectAll ps v).2, p ∈ ps := by
+  induction ps with
+  | nil => simp [selectAll]
+  | cons q ps ih =>
+    obtain ⟨n, t⟩ := q
+    intro p hp
+    simp only [selectAll] at hp
+    split at hp
+    · split at hp
+      · exact List.mem_cons_of_mem _ (ih p hp)
+      · cases hp with
+        | head => exact List.mem_cons_self
+        | tail _ h => exact List.mem_cons_of_mem _ (ih p h)
+    · cases hp with
+      | head => exact List.mem_cons_self
+      | tail _ h => exact List.mem_cons_of_mem _ (ih p h)
+
+theorem selectAll_snd_length (ps : VarList) (v : String) : (selectAll ps v).2.length ≤ ps.length := by
+  induction ps with
+  | nil => simp [selectAll]
+  | cons q ps ih =>
+    obtain ⟨n, t⟩ := q
+    simp only [selectAll]
+    split
+    · split <;> simp <;> omega
+    · simp; omega
+
+/-- a pair with a non-variable value is never selected away. -/
+theorem selectAll_snd_keeps (ps : VarList) (v : String) (p : String × Term)
+    (hp : p ∈ ps) (hnv : ∀ w, p.2 ≠ .var w) : p ∈ (selectAll ps v).2 := by
+  induction ps with
+  | nil => cases hp
+  | cons q ps ih =>
+    obtain ⟨n, t⟩ := q
+    simp only [selectAll]
+    cases hp with
+    | head =>
+      split
+      · exact absurd rfl (hnv _)
+      · exact List.mem_cons_self
+    | tail _ h =>
+      have := ih h
+      split
+      · split
+        · exact this
+        · exact List.mem_cons_of_mem _ this
+      · exact List.mem_cons_of_mem _ this
+
+/-- every equation of `gather_equations/3` is an entry of the list it was given. -/
+theorem gatherEquations_sub (fuel : Nat) : ∀ (ps : VarList) (orig : List String),
+    ∀ p ∈ gatherEquations fuel ps orig, p ∈ ps := by
+  induction fuel with
+  | zero => intro ps orig p hp; simp [gatherEquations] at hp
+  | succ f ih =>
+    intro ps orig p hp
+    cases ps with
+    | nil => simp [gatherEquations] at hp
+    | cons q ps =>
+      obtain ⟨n, t⟩ := q
+      simp only [gatherEquations] at hp
+      split at hp
+      · split at hp
+        · split at hp
+          · rename_i same rest heq
+            cases hp with
+            | head => exact List.mem_cons_self
+            | tail _ h =>
+              rcases List.mem_append.mp h with h1 | h2
+              · have hs := selectAll_fst_sub ps _ p (by rw [heq]; exact List.mem_cons_of_mem _ h1)
+                exact List.mem_cons_of_mem _ hs.1
+              · have := ih _ _ p h2
+                exact List.mem_cons_of_mem _ (selectAll_snd_sub ps _ p (by rw [heq]; exact this))
+          · exact List.mem_cons_of_mem _ (ih _ _ p hp)
+        · exact List.mem_cons_of_mem _ (ih _ _ p hp)
+      · cases hp with
+        | head => exact List.mem_cons_self
+        | tail _ h => exact List.mem_cons_of_mem _ (ih _ _ p h)
+
+/-- every entry with a non-variable value becomes an equation. -/
+theorem gatherEquations_keeps (fuel : Nat) : ∀ (ps : VarList) (orig : List String), ps.length ≤ fuel →
+    ∀ p ∈ ps, (∀ w, p.2 ≠ .var w) → p ∈ gatherEquations fuel ps orig := by
+  induction fuel with
+  | zero =>
+    intro ps orig hl p hp
+    have : ps = [] := List.eq_nil_of_length_eq_zero (by omega)
+    subst this; cases hp
+  | succ f ih =>
+    intro ps orig hl p hp hnv
+    cases ps with
+    | nil => cases hp
+    | cons q ps =>
+      obtain ⟨n, t⟩ := q
+      have hl' : ps.length ≤ f := by simp at hl; omega
+      simp only [gatherEquations]
+      cases hp with
+      | head =>
+        split
+        · exact absurd rfl (hnv _)
+        · exact List.mem_cons_self
+      | tail _ h =>
+        split
+        · split
+          · split
+            · rename_i same rest heq
+              refine List.mem_cons_of_mem _ (List.mem_append.mpr (Or.inr ?_))
+              have hk := selectAll_snd_keeps ps _ p h hnv
+              have hlen := selectAll_snd_length ps (by assumption)
+              rw [heq] at hk hlen
+              exact ih _ _ (by simp at hlen; omega) p hk hnv
+            · exact ih _ _ hl' p h hnv
+          · exact ih _ _ hl' p h hnv
+        · exact List.mem_cons_of_mem _ (ih _ _ hl' p h hnv)
+
+end Toplevel
+end Scryer
